@@ -4,20 +4,25 @@ import TexSoupProofs.ArgsLemmas
 /-!
 # C18 – argument lists behave like Python lists of groups
 
-Model: `TexSoupModel/Args.lean` (`Args.step`, the class as it is, `.all` included).
-Specification: `TexSoupProofs/ArgsSpec.lean` (`specStep` on a bare `List Expr`).
-Abstraction `abs st = st.lst`; invariant `Inv` (only group/command objects in the list; every
-list item has its own textual twin in `.all`, counted with multiplicity).
+Model: `TexSoupModel/Args.lean` (`Args.step`, the class as it is, `.all` and object
+identities included). Specification: `TexSoupProofs/ArgsSpec.lean` (`specStep` on a bare list
+of objects plus the allocation counter). Abstraction `abs st = (st.lst, st.next)`; invariant
+`Inv`: only group/command objects in the list, and `.all` contains every list element *as an
+object*, counted with multiplicity.
 
-Things the proofs forced into the open (all replayed on the implementation):
-* before its repair `pop` returned the first *textual twin* kept in `.all`, not the list item
-  itself (`Legacy.pop_returns_textual_twin`); the repaired `pop` returns the list item, so
-  every output of every operation is now exactly the list's (`step_refines`);
-* `remove(x)` of something that is in `.all` but not in the list (a blank string, mainly)
-  raises `ValueError` like a list does, but has already deleted it from `.all`
-  (`failed_ops_keep_state`);
-* a failing `extend` keeps the items before the offending one, as a Python loop does
-  (`extend_failure_keeps_prefix`).
+History of what the proofs and the oracles forced into the open (the `Legacy` namespaces keep
+the old code and the witnesses):
+* `insert` with a negative or too large index raised after inserting
+  (`Legacy.insert_breaks_list_semantics`);
+* `pop` returned the first *textual twin* kept in `.all`, not the list item
+  (`Legacy.pop_returns_textual_twin`);
+* `.all` was kept in step by text: twins ended up in the wrong place
+  (`Legacy2.insert_misplaced_twin`) and `remove(x)` of something that is in `.all` but not in
+  the list deleted it from `.all` before raising (`Legacy2.remove_mutated_all_before_raising`).
+With the current code every output is exactly the list's (`step_refines`) and a failed
+operation changes neither the list nor `.all` (`failed_ops_keep_state`); only a failing
+`extend` keeps the items before the offending one, as a Python loop does
+(`extend_failure_keeps_prefix`).
 -/
 namespace TexSoup
 namespace C18
@@ -34,29 +39,28 @@ theorem step_refines (st : ArgsSt) (op : ArgsOp) (h : Inv st) :
     OutRel SameObj (Args.step st op).2 (specStep (abs st) op).2 := by
   have := step_core st op h
   exact ⟨this.1, this.2.1, outRel_mono (fun _ _ hr => hr.1) this.2.2⟩
-example : Inv ArgsSt.empty := inv_empty
-example : (Args.step stAB (.insert (-7) (.str sY))).1.lst = [gY, gA, gB] ∧
-    (specStep stAB.lst (.insert (-7) (.str sY))).1 = [gY, gA, gB] := ⟨rfl, rfl⟩
+example : Inv (ArgsSt.empty 0) := inv_empty 0
+example : (Args.step stAB (.insert (-7) (.str sY))).1.lst = [⟨.made 2, eY⟩, gA, gB] ∧
+    (specStep (abs stAB) (.insert (-7) (.str sY))).1 = ([⟨.made 2, eY⟩, gA, gB], 3) := ⟨rfl, rfl⟩
 
-/-- **Returned items are the list's own items, for every operation** (`pop` included since
-its repair): the output component of `step_refines` on its own. -/
+/-- **Returned items are the list's own items, for every operation**: the output component
+of `step_refines` on its own. -/
 theorem step_output_exact (st : ArgsSt) (op : ArgsOp) (h : Inv st) :
     OutRel SameObj (Args.step st op).2 (specStep (abs st) op).2 :=
   (step_refines st op h).2.2
 example : (Args.step stAB (.getItem (-1))).2 = .item (.grp gB) ∧
     (Args.step stAB (.pop 0)).2 = .item (.grp gA) := ⟨rfl, rfl⟩
 
-/-- **The repaired `pop` on the witness of the former deviation**: with two textually equal
-groups that are different objects (source positions 3 and 7), `pop(1)` returns the item at
-index 1 (position 7), as `list.pop` does. (`.all` gives up its *first* twin, the object at
-position 3 – the multiset of texts, which is all the invariant needs, is the same.) -/
+/-- **`pop` on the witness of the former deviation**: with two textually equal groups that
+are different objects (source positions 3 and 7), `pop(1)` returns the item at index 1
+(position 7), as `list.pop` does, and it is that object which leaves `.all`. -/
 theorem pop_returns_list_item_on_witness :
-    let g3 : Expr := .group .brace [.text [97] (-1)] 3
-    let g7 : Expr := .group .brace [.text [97] (-1)] 7
+    let g3 : Obj := ⟨.ext 3, .group .brace [.text [97] (-1)] 3⟩
+    let g7 : Obj := ⟨.ext 7, .group .brace [.text [97] (-1)] 7⟩
     let st := (Args.construct [.grp g3, .grp g7]).1
-    st = ⟨[g3, g7], [.grp g3, .grp g7]⟩ ∧
-    Args.step st (.pop 1) = (⟨[g3], [.grp g7]⟩, .item (.grp g7)) ∧
-    specStep st.lst (.pop 1) = ([g3], .item g7) :=
+    st = ⟨[g3, g7], [.grp g3, .grp g7], 0⟩ ∧
+    Args.step st (.pop 1) = (⟨[g3], [.grp g3], 0⟩, .item (.grp g7)) ∧
+    specStep (abs st) (.pop 1) = (([g3], 0), .item g7) :=
   ⟨rfl, rfl, rfl⟩
 
 /-- **Histories.** From any state satisfying the invariant (in particular the empty
@@ -71,12 +75,40 @@ theorem run_refines (st : ArgsSt) (ops : List ArgsOp) (h : Inv st) :
   | cons op ops ih =>
     have hs := step_refines st op h
     have hr := ih (Args.step st op).1 hs.2.1
-    simp only [abs] at hs hr ⊢
     simp only [Args.run, specRun]
     rw [← hs.1]
     exact ⟨hr.1, hr.2.1, hs.2.2, hr.2.2⟩
-example : (Args.run .empty [.append (.str sA), .insert 5 (.str sB), .remove (.str sA), .pop (-1)]).2
+example : (Args.run (.empty 0) [.append (.str sA), .insert 5 (.str sB), .remove (.str sA), .pop (-1)]).2
     = [.none, .none, .none, .item (.grp gB)] := rfl
+
+/-- **`.all` holds every list element as an object** (new with the identity-based
+book-keeping): after any history from `TexArgs()`, every object is in `.all` at least as often
+as it is in the list – in particular every list element is found in `.all` by `is`. Texts play
+no part. -/
+theorem all_holds_every_list_object (n : Nat) (ops : List ArgsOp) :
+    let st := (Args.run (.empty n) ops).1
+    (∀ id : Oid, st.lst.countP (fun o => o.id == id) ≤ st.all.countP (ArgItem.isObj id)) ∧
+    (∀ o ∈ st.lst, ∃ it ∈ st.all, it.isObj o.id = true) := by
+  intro st
+  have hinv : Inv st := (run_refines (.empty n) ops (inv_empty n)).2.1
+  refine ⟨hinv.objs, fun o ho => ?_⟩
+  rcases List.countP_pos_iff.mp (obj_in_all hinv ho) with ⟨it, hit, hp⟩
+  exact ⟨it, hit, hp⟩
+example : (Args.run (.empty 0) [.append (.str sA), .append (.str sA), .append (.str [91, 98, 93])]).1.all
+    = [.grp ⟨.made 0, eA⟩, .grp ⟨.made 1, eA⟩, .grp ⟨.made 2, .group .bracket [.text [98] (-1)] (-1)⟩] :=
+  rfl
+
+/-- **The invariant survives an in-place edit of an argument's contents.** If some object
+gets a new value (still a group or command) wherever it is referenced, the state still
+satisfies the invariant – so `step_refines` keeps applying afterwards: the book-keeping
+never relies on the text an argument had when it was inserted. -/
+theorem inv_survives_content_edit (st : ArgsSt) (id : Oid) (e' : Expr) (h : Inv st)
+    (he : isArgObj e' = true) : Inv (Args.editObj st id e') :=
+  inv_edit h id e' he
+-- TexArgs(['{a}','{a}']); the second group is edited to '{b}'; pop(1) still returns it and
+-- removes *it* from `.all`
+example : Args.step (Args.editObj (Args.construct [.str sA, .str sA]).1 (.made 1) eB) (.pop 1)
+    = (⟨[⟨.made 0, eA⟩], [.grp ⟨.made 0, eA⟩], 2⟩, .item (.grp ⟨.made 1, eB⟩)) := rfl
 
 /-- **The pool of the property is closed.** If everything stored is a group made from a
 string (`TexGroup.parse`, position `-1`) or a blank string, and the operation brings in only
@@ -88,7 +120,7 @@ theorem step_refines_plain (st : ArgsSt) (op : ArgsOp) (h : Inv st) (hp : PlainS
     OutRel SameObj (Args.step st op).2 (specStep (abs st) op).2 := by
   have := step_refines st op h
   exact ⟨this.1, this.2.1, plain_step st op h hp hop, this.2.2⟩
-example : PlainSt ArgsSt.empty := ⟨by simp [ArgsSt.empty], by simp [ArgsSt.empty]⟩
+example : PlainSt (ArgsSt.empty 0) := ⟨by simp [ArgsSt.empty], by simp [ArgsSt.empty]⟩
 example : PlainOp (.insert (-1) (.str sY)) ∧ PlainOp (.append (.grp gA)) :=
   ⟨trivial, ⟨.brace, [97], rfl⟩⟩
 
@@ -102,79 +134,65 @@ theorem run_refines_plain (st : ArgsSt) (ops : List ArgsOp) (h : Inv st) (hp : P
   | cons op ops ih =>
     have hs := step_refines_plain st op h hp (hops op (by simp))
     have hr := ih (Args.step st op).1 hs.2.1 hs.2.2.1 (fun o ho => hops o (by simp [ho]))
-    simp only [abs] at hs hr ⊢
     simp only [Args.run, specRun]
     rw [← hs.1]
     exact ⟨hr.1, hs.2.2.2, hr.2⟩
-example : (Args.run .empty [.extend [.str sA, .grp gA, .str [32]], .pop 1]).2
-    = [.none, .item (.grp gA)] := rfl
+example : (Args.run (.empty 0) [.extend [.str sA, .grp ⟨.ext 0, eA⟩, .str [32]], .pop 1]).2
+    = [.none, .item (.grp ⟨.ext 0, eA⟩)] := rfl
 
-/-- **Failed operations keep the list.** On a state satisfying the invariant, an operation
-other than `extend` that ends in `TypeError`, `ValueError` or `IndexError` leaves the list
-unchanged. `.all` is unchanged too, with one exception: `remove(x)` for an `x` that has a
-textual twin in `.all` but none in the list (a blank string, typically) has deleted that
-twin from `.all` before `list.remove` raises. -/
+/-- **Failed operations change nothing.** On a state satisfying the invariant, an operation
+other than `extend` that ends in `TypeError`, `ValueError` or `IndexError` leaves both the
+list and `.all` exactly as they were. (For `extend` see `extend_failure_keeps_prefix`.) -/
 theorem failed_ops_keep_state (st : ArgsSt) (op : ArgsOp) (h : Inv st)
     (hop : isExtendOp op = false) (herr : isError (Args.step st op).2 = true) :
-    (Args.step st op).1.lst = st.lst ∧
-    ((Args.step st op).1.all = st.all ∨
-      ∃ a it j, op = .remove a ∧ coerce a = some it ∧ (Args.step st op).2 = .valueError ∧
-        idxOfTxt ArgItem.txt it.txt st.all = some j ∧ it.txt ∉ st.lst.map ser ∧
-        (Args.step st op).1.all = st.all.eraseIdx j) := by
+    (Args.step st op).1.lst = st.lst ∧ (Args.step st op).1.all = st.all := by
   cases op with
   | extend as => simp [isExtendOp] at hop
   | append a =>
     simp only [Args.step, Args.append] at herr ⊢
-    rcases insert_char st st.lst.length a h with ⟨_, hi⟩ | ⟨it, all', _, hi, _, _⟩
-    · rw [hi]; exact ⟨rfl, Or.inl rfl⟩
+    rcases insert_char st st.lst.length a h with ⟨_, hi⟩ | ⟨it, n, all', _, hi, _, _⟩
+    · rw [hi]; exact ⟨rfl, rfl⟩
     · rw [hi] at herr; simp [isError] at herr
   | insert i a =>
     simp only [Args.step] at herr ⊢
-    rcases insert_char st i a h with ⟨_, hi⟩ | ⟨it, all', _, hi, _, _⟩
-    · rw [hi]; exact ⟨rfl, Or.inl rfl⟩
+    rcases insert_char st i a h with ⟨_, hi⟩ | ⟨it, n, all', _, hi, _, _⟩
+    · rw [hi]; exact ⟨rfl, rfl⟩
     · rw [hi] at herr; simp [isError] at herr
   | remove a =>
     simp only [Args.step] at herr ⊢
-    rcases remove_char st a h with ⟨_, hr⟩ | ⟨it, hc, hs, ⟨_, hr⟩ | ⟨j, hj, hr, _⟩⟩ |
-      ⟨it, j, l', _, _, _, hr, _⟩
-    · rw [hr]; exact ⟨rfl, Or.inl rfl⟩
-    · rw [hr]; exact ⟨rfl, Or.inl rfl⟩
-    · rw [hr]
-      refine ⟨rfl, Or.inr ⟨a, it, j, rfl, hc, rfl, hj, ?_, rfl⟩⟩
-      rw [specRemove_eq] at hs
-      cases hk : idxOfTxt ser it.txt st.lst with
-      | none => exact (idxOfTxt_none _ _ _).mp hk
-      | some k => simp [hk] at hs
+    rcases remove_char st a h with ⟨_, hr⟩ | ⟨it, n, _, _, hr⟩ | ⟨it, n, k, j, _, _, hr, _⟩
+    · rw [hr]; exact ⟨rfl, rfl⟩
+    · rw [hr]; exact ⟨rfl, rfl⟩
     · rw [hr] at herr; simp [isError] at herr
   | pop i =>
     simp only [Args.step] at herr ⊢
-    rcases pop_char st i h with ⟨_, hp⟩ | ⟨k, e, j, _, _, _, hp, _⟩
-    · rw [hp]; exact ⟨rfl, Or.inl rfl⟩
+    rcases pop_char st i h with ⟨_, hp⟩ | ⟨k, e, j, _, _, hp, _⟩
+    · rw [hp]; exact ⟨rfl, rfl⟩
     · rw [hp] at herr; simp [isError] at herr
   | reverse => simp [Args.step, Args.reverse, isError] at herr
   | clear => simp [Args.step, Args.clear, isError] at herr
   | getItem i =>
     simp only [Args.step] at herr ⊢
-    rcases getItem_char st i with ⟨_, hg⟩ | ⟨k, e, _, _, hg⟩ <;> rw [hg] <;> exact ⟨rfl, Or.inl rfl⟩
+    rcases getItem_char st i with ⟨_, hg⟩ | ⟨k, e, _, _, hg⟩ <;> rw [hg] <;> exact ⟨rfl, rfl⟩
   | slice lo hi =>
     simp only [Args.step] at herr ⊢
     rcases slice_char st lo hi h with ⟨st', hs, _, _⟩
-    rw [hs]; exact ⟨rfl, Or.inl rfl⟩
-  | str => exact ⟨rfl, Or.inl rfl⟩
--- the exceptional case exists: remove(' ') on TexArgs(['{a}', ' ', '{b}'])
-example : Args.step stAB (.remove (.str [32])) = (⟨[gA, gB], [.grp gA, .grp gB]⟩, .valueError) := rfl
--- and the ordinary one: a mismatched string
+    rw [hs]; exact ⟨rfl, rfl⟩
+  | str => exact ⟨rfl, rfl⟩
+-- remove(' ') on TexArgs(['{a}', ' ', '{b}']): ValueError, `.all` keeps its blank
+example : Args.step stAB (.remove (.str [32])) = (stAB, .valueError) := rfl
+-- a mismatched string
 example : Args.step stAB (.insert 1 (.str [91, 120, 125])) = (stAB, .typeError) := rfl
 
 /-- **A rejected string changes nothing at all**: whenever the coercion of the operand
-fails, `append`, `insert` and `remove` return `TypeError` with list and `.all` untouched –
-in any state, invariant or not. -/
+fails, `append`, `insert` and `remove` return `TypeError` with the state untouched – in any
+state, invariant or not. -/
 theorem failed_coercion_changes_nothing (st : ArgsSt) (i : Int) (a : ArgIn)
-    (h : coerce a = none) :
+    (h : coerce st.next a = none) :
     Args.step st (.append a) = (st, .typeError) ∧ Args.step st (.insert i a) = (st, .typeError) ∧
     Args.step st (.remove a) = (st, .typeError) := by
   simp [Args.step, Args.append, Args.insert, Args.remove, h]
-example : coerce (.str [91, 120, 125]) = none := rfl
+example : coerce 5 (.str [91, 120, 125]) = none := rfl
 
 /-- **A failing `extend` is `extend` by the items before the offending one**: if
 `extend(as)` raises, then `as = pre ++ bad :: post` where `bad` is the first operand whose
@@ -182,14 +200,14 @@ coercion fails, the exception is `TypeError`, and the state is exactly the one
 `extend(pre)` produces without exception. -/
 theorem extend_failure_keeps_prefix (st : ArgsSt) (as : List ArgIn) (h : Inv st)
     (herr : isError (Args.extend st as).2 = true) :
-    ∃ pre bad post, as = pre ++ bad :: post ∧ coerce bad = none ∧
+    ∃ pre bad post, as = pre ++ bad :: post ∧ coerce (Args.extend st as).1.next bad = none ∧
       (Args.extend st as).2 = .typeError ∧
       Args.extend st pre = ((Args.extend st as).1, .none) := by
   induction as generalizing st with
   | nil => simp [Args.extend, isError] at herr
   | cons a r ih =>
     unfold Args.extend Args.append at herr ⊢
-    rcases insert_char st st.lst.length a h with ⟨hc, hi⟩ | ⟨it, all', _, hi, _, hinv⟩
+    rcases insert_char st st.lst.length a h with ⟨hc, hi⟩ | ⟨it, n, all', _, hi, _, hinv⟩
     · rw [hi]
       exact ⟨[], a, r, rfl, hc, rfl, rfl⟩
     · rw [hi] at herr ⊢
@@ -199,19 +217,22 @@ theorem extend_failure_keeps_prefix (st : ArgsSt) (as : List ArgIn) (h : Inv st)
       simp only [hi]
       exact h4
 example : Args.step stAB (.extend [.str sY, .str [120], .str sA])
-    = (⟨[gA, gB, gY], [.grp gA, .grp gB, .grp gY, .ws [32]]⟩, .typeError) := rfl
+    = (⟨[gA, gB, ⟨.made 2, eY⟩], [.grp gA, .grp gB, .grp ⟨.made 2, eY⟩, .ws [32]], 3⟩, .typeError) := rfl
 
-/-- **Coercion is what the property says.** `'{' + s + '}'` becomes the brace group whose
-single content is the string `s`, `'[' + s + ']'` the bracket group; a blank string is kept
+/-- **Coercion is what the property says.** `'{' + s + '}'` becomes a new brace group whose
+single content is the string `s`, `'[' + s + ']'` a new bracket group; a blank string is kept
 as whitespace (and only ever reaches `.all`); every other string – mismatched delimiters
 such as `'[x}'`, a lone `'{'`, text outside the delimiters, the empty string – is rejected
-with `TypeError`. (`'[]'` and `'{}'` are the cases `s = ''`.) -/
-theorem coerce_correct :
-    (∀ s : Str, coerce (.str (123 :: (s ++ [125]))) = some (.grp (.group .brace [.text s (-1)] (-1)))) ∧
-    (∀ s : Str, coerce (.str (91 :: (s ++ [93]))) = some (.grp (.group .bracket [.text s (-1)] (-1)))) ∧
-    (∀ s : Str, isBlank s = true → coerce (.str s) = some (.ws s)) ∧
+with `TypeError`. (`'[]'` and `'{}'` are the cases `s = ''`.) `n` is the allocation counter:
+the new group is the `n`-th object made. -/
+theorem coerce_correct (n : Nat) :
+    (∀ s : Str, coerce n (.str (123 :: (s ++ [125])))
+      = some (.grp ⟨.made n, .group .brace [.text s (-1)] (-1)⟩, n + 1)) ∧
+    (∀ s : Str, coerce n (.str (91 :: (s ++ [93])))
+      = some (.grp ⟨.made n, .group .bracket [.text s (-1)] (-1)⟩, n + 1)) ∧
+    (∀ s : Str, isBlank s = true → coerce n (.str s) = some (.ws s, n)) ∧
     (∀ s : Str, isBlank s = false → (∀ t, s ≠ 123 :: (t ++ [125])) → (∀ t, s ≠ 91 :: (t ++ [93])) →
-      coerce (.str s) = none) := by
+      coerce n (.str s) = none) := by
   have h1 : isSpaceCh 91 = false := by decide
   have h2 : isSpaceCh 123 = false := by decide
   refine ⟨?_, ?_, ?_, ?_⟩
@@ -243,17 +264,17 @@ theorem coerce_correct :
         · rfl
       · rfl
     simp [specVal, specStr, hs, this]
-example : coerce (.str [91, 120, 125]) = none ∧ coerce (.str [123]) = none ∧ coerce (.str []) = none ∧
-    coerce (.str [91, 93]) = some (.grp (.group .bracket [.text [] (-1)] (-1))) ∧
-    coerce (.str [91, 93, 93]) = some (.grp (.group .bracket [.text [93] (-1)] (-1))) ∧
-    coerce (.str [32, 10]) = some (.ws [32, 10]) := ⟨rfl, rfl, rfl, rfl, rfl, rfl⟩
+example : coerce 0 (.str [91, 120, 125]) = none ∧ coerce 0 (.str [123]) = none ∧ coerce 0 (.str []) = none ∧
+    coerce 4 (.str [91, 93]) = some (.grp ⟨.made 4, .group .bracket [.text [] (-1)] (-1)⟩, 5) ∧
+    coerce 4 (.str [91, 93, 93]) = some (.grp ⟨.made 4, .group .bracket [.text [93] (-1)] (-1)⟩, 5) ∧
+    coerce 4 (.str [32, 10]) = some (.ws [32, 10], 4) := ⟨rfl, rfl, rfl, rfl, rfl, rfl⟩
 
 /-- **Serialisation.** `str(args)` is the concatenation of the `str` of the list items in
-list order (this is the `serL args` that `ser` of the owning command/environment prints);
-`.all` plays no part, and asking for it changes nothing. -/
+list order (this is the `serL` of the arguments that `ser` of the owning command/environment
+prints); `.all` plays no part, and asking for it changes nothing. -/
 theorem str_is_concat (st : ArgsSt) :
-    Args.step st .str = (st, .string (st.lst.map ser).flatten) ∧
-    (st.lst.map ser).flatten = serL st.lst := by
+    Args.step st .str = (st, .string (st.lst.map fun o => ser o.e).flatten) ∧
+    (st.lst.map fun o => ser o.e).flatten = serL (st.lst.map Obj.e) := by
   simp [Args.step, Args.str, serL_eq_flatten]
 example : (Args.step stAB .str).2 = .string [123, 97, 125, 123, 98, 125] := rfl
 
@@ -263,67 +284,100 @@ to the book-keeping. On `TexArgs(['{a}', '{b}'])` – reachable, invariant holds
 `insert(-1, '{y}')` puts `{y}` into the list, then looks *it* up in `.all`
 (`before = self[-2]` is the new item) and raises `ValueError`: the caller sees an exception
 where `list.insert` succeeds, the list has changed nevertheless, and the resulting state
-violates the invariant (`{y}` has no twin in `.all`). -/
+violates the invariant (`{y}` is not in `.all`). -/
 theorem insert_breaks_list_semantics :
-    let st : ArgsSt := ⟨[gA, gB], [.grp gA, .grp gB]⟩
+    let gY : Obj := ⟨.made 2, eY⟩
+    let st : ArgsSt := ⟨[gA, gB], [.grp gA, .grp gB], 2⟩
     (Args.construct [.str sA, .str sB]).1 = st ∧ Inv st ∧
-    Args.Legacy.insert st (-1) (.str sY) = (⟨[gA, gY, gB], [.grp gA, .grp gB]⟩, .valueError) ∧
-    specStep st.lst (.insert (-1) (.str sY)) = ([gA, gY, gB], .none) ∧
-    ¬ Inv ⟨[gA, gY, gB], [.grp gA, .grp gB]⟩ := by
-  refine ⟨rfl, ⟨by simp [gA, gB, isArgObj], fun t => Nat.le_refl _⟩, rfl, rfl, ?_⟩
-  intro h
-  exact absurd (h.twins sY) (by decide)
+    Args.Legacy.insert st (-1) (.str sY) = (⟨[gA, gY, gB], [.grp gA, .grp gB], 3⟩, .valueError) ∧
+    specStep (abs st) (.insert (-1) (.str sY)) = (([gA, gY, gB], 3), .none) ∧
+    ¬ Inv ⟨[gA, gY, gB], [.grp gA, .grp gB], 3⟩ := by
+  refine ⟨rfl, ⟨by simp [gA, gB, eA, eB, isArgObj], fun id => ?_⟩, rfl, rfl, ?_⟩
+  · simp [List.countP_cons, ArgItem.isObj]
+  · intro h
+    exact absurd (h.objs (.made 2)) (by decide)
 
-/-- **Negative result (before the repair of `pop`).** The old `pop` ended in
-`return self.all.pop(j)`: with two textually equal groups that are different objects (source
-positions 3 and 7), `pop(1)` handed back the one at position 3 although the list item at
-index 1 is the one at position 7, which `list.pop` returns. The state is reachable
-(`TexArgs([g3, g7])`). Harmless for text, visible through `.position`/identity. -/
+/-- **Negative result (before the first repair of `pop`).** The old `pop` ended in
+`return self.all.pop(j)` with `j = self.all.index(item)`: with two textually equal groups that
+are different objects (source positions 3 and 7), `pop(1)` handed back the one at position 3
+although the list item at index 1 is the one at position 7, which `list.pop` returns. The
+state is reachable (`TexArgs([g3, g7])`). -/
 theorem pop_returns_textual_twin :
-    let g3 : Expr := .group .brace [.text [97] (-1)] 3
-    let g7 : Expr := .group .brace [.text [97] (-1)] 7
+    let g3 : Obj := ⟨.ext 3, .group .brace [.text [97] (-1)] 3⟩
+    let g7 : Obj := ⟨.ext 7, .group .brace [.text [97] (-1)] 7⟩
     let st := (Args.construct [.grp g3, .grp g7]).1
-    st = ⟨[g3, g7], [.grp g3, .grp g7]⟩ ∧ Inv st ∧
-    Args.Legacy.pop st 1 = (⟨[g3], [.grp g7]⟩, .item (.grp g3)) ∧
-    specStep st.lst (.pop 1) = ([g3], .item g7) := by
+    st = ⟨[g3, g7], [.grp g3, .grp g7], 0⟩ ∧ Inv st ∧
+    Args.Legacy.pop st 1 = (⟨[g3], [.grp g7], 0⟩, .item (.grp g3)) ∧
+    specStep (abs st) (.pop 1) = (([g3], 0), .item g7) := by
   refine ⟨rfl, ?_, rfl, rfl⟩
-  show Inv ⟨[.group .brace [.text [97] (-1)] 3, .group .brace [.text [97] (-1)] 7],
-    [.grp (.group .brace [.text [97] (-1)] 3), .grp (.group .brace [.text [97] (-1)] 7)]⟩
-  exact ⟨by simp [isArgObj], fun t => Nat.le_refl _⟩
+  show Inv ⟨[⟨.ext 3, .group .brace [.text [97] (-1)] 3⟩, ⟨.ext 7, .group .brace [.text [97] (-1)] 7⟩],
+    [.grp ⟨.ext 3, .group .brace [.text [97] (-1)] 3⟩, .grp ⟨.ext 7, .group .brace [.text [97] (-1)] 7⟩], 0⟩
+  exact ⟨by simp [isArgObj], fun id => by simp [List.countP_cons, ArgItem.isObj]⟩
 
-/-- **The old `pop` was wrong in the returned object only**: same new state as the repaired
-`pop`, same exception behaviour, and the object it returned is an entry of `.all` printing
-like the list item. -/
+/-- **The old `pop` against the current one**: the same list afterwards and the same
+`IndexError`s; where the current `pop` returns the list item, the old one returned an entry
+of `.all` that prints like it (or raised `ValueError` if, after an edit, none did). -/
 theorem pop_differs_only_in_returned_object (st : ArgsSt) (i : Int) (h : Inv st) :
-    (Args.Legacy.pop st i).1 = (Args.pop st i).1 ∧
-    ((Args.pop st i).2 = .indexError ∧ (Args.Legacy.pop st i).2 = .indexError ∨
-     ∃ e r, (Args.pop st i).2 = .item (.grp e) ∧ (Args.Legacy.pop st i).2 = .item r ∧
-       r ∈ st.all ∧ e ∈ st.lst ∧ r.txt = ser e) :=
+    (Args.Legacy.pop st i).1.lst = (Args.pop st i).1.lst ∧
+    ((Args.pop st i).2 = .indexError ∧ Args.Legacy.pop st i = (st, .indexError) ∨
+     ∃ o, (Args.pop st i).2 = .item (.grp o) ∧ o ∈ st.lst ∧
+       ((Args.Legacy.pop st i).2 = .valueError ∨
+        ∃ r, (Args.Legacy.pop st i).2 = .item r ∧ r ∈ st.all ∧ r.txt = ser o.e)) :=
   legacy_pop_char st i h
 example : Args.Legacy.pop stAB 5 = (stAB, .indexError) ∧
     Args.Legacy.pop stAB 0 = Args.pop stAB 0 := ⟨rfl, rfl⟩
 
-/-- **On the pool of the property the old `pop` could not be told from a list's**: there a
-textual twin is the same value, so old and repaired `pop` agree completely. (This is why a
-breadth-first search over groups made from strings does not see the defect.) -/
-theorem pop_agrees_on_plain_pool (st : ArgsSt) (i : Int) (h : Inv st) (hp : PlainSt st) :
-    Args.Legacy.pop st i = Args.pop st i := by
-  rcases legacy_pop_char st i h with ⟨h1, ⟨h2, h3⟩ | ⟨e, r, h2, h3, hr, he, ht⟩⟩
-  · exact Prod.ext h1 (h3.trans h2.symm)
-  · exact Prod.ext h1 (by rw [h2, h3, twin_exact_of_plain hp hr he ht])
-example : PlainSt stAB :=
-  ⟨by intro e he; simp [stAB] at he; rcases he with rfl | rfl <;> exact ⟨_, _, rfl⟩,
-   by intro it hi; simp [stAB] at hi
-      rcases hi with rfl | rfl | rfl
-      · exact ⟨_, _, rfl⟩
-      · exact ⟨_, _, rfl⟩
-      · show isBlank [32] = true; decide⟩
+/-- **On the pool of the property the old `pop` returned an equal value**: there a textual
+twin has the same contents and position as the list item (it may still be another object,
+which only `is` can tell). This is why a search over groups made from strings that compares
+values does not see the defect. -/
+theorem pop_agrees_on_plain_pool (st : ArgsSt) (i : Int) (h : Inv st) (hp : PlainSt st)
+    (r : ArgItem) (hr : (Args.Legacy.pop st i).2 = .item r) :
+    ∃ o o', (Args.pop st i).2 = .item (.grp o) ∧ r = .grp o' ∧ o'.e = o.e := by
+  rcases legacy_pop_char st i h with ⟨_, ⟨_, h3⟩ | ⟨o, h2, ho, h3 | ⟨r', h3, hr', ht⟩⟩⟩
+  · rw [h3] at hr; cases hr
+  · rw [h3] at hr; cases hr
+  · rw [h3] at hr; cases hr
+    rcases twin_value_of_plain hp hr' ho ht with ⟨o', h4, h5⟩
+    exact ⟨o, o', h2, h4, h5⟩
+example : PlainSt stAB ∧ (Args.Legacy.pop stAB 1).2 = .item (.grp gB) :=
+  ⟨⟨by intro e he; simp [stAB] at he; rcases he with rfl | rfl <;> exact ⟨_, _, rfl⟩,
+    by intro it hi; simp [stAB] at hi
+       rcases hi with rfl | rfl | rfl
+       · exact ⟨_, _, rfl⟩
+       · exact ⟨_, _, rfl⟩
+       · show isBlank [32] = true; decide⟩, rfl⟩
 
-/-- The repaired `insert` on the same input: no exception, list as `list.insert`, `.all` in step. -/
+/-- The repaired `insert` on the witness of `insert_breaks_list_semantics`: no exception,
+list as `list.insert`, `.all` in step. -/
 theorem insert_repaired_on_witness :
-    Args.insert ⟨[gA, gB], [.grp gA, .grp gB]⟩ (-1) (.str sY)
-      = (⟨[gA, gY, gB], [.grp gA, .grp gY, .grp gB]⟩, .none) := rfl
+    Args.insert ⟨[gA, gB], [.grp gA, .grp gB], 2⟩ (-1) (.str sY)
+      = (⟨[gA, ⟨.made 2, eY⟩, gB], [.grp gA, .grp ⟨.made 2, eY⟩, .grp gB], 3⟩, .none) := rfl
 end Legacy
+
+namespace Legacy2
+/-- **Negative result (book-keeping by text).** Appending `'{a}'`, `'{a}'`, `'[b]'`: the old
+code looked the left neighbour up with `self.all.index`, found the *first* `{a}` and put
+`[b]` behind it – `.all` became `{a} [b] {a}` while the list is `{a} {a} [b]`. The current
+code finds the neighbour itself. -/
+theorem insert_misplaced_twin :
+    let st := (Args.run (.empty 0) [.append (.str sA), .append (.str sA)]).1
+    let b : Obj := ⟨.made 2, .group .bracket [.text [98] (-1)] (-1)⟩
+    st = ⟨[⟨.made 0, eA⟩, ⟨.made 1, eA⟩], [.grp ⟨.made 0, eA⟩, .grp ⟨.made 1, eA⟩], 2⟩ ∧
+    (Args.Legacy2.insert st 2 (.str [91, 98, 93])).1.all
+      = [.grp ⟨.made 0, eA⟩, .grp b, .grp ⟨.made 1, eA⟩] ∧
+    (Args.insert st 2 (.str [91, 98, 93])).1.all
+      = [.grp ⟨.made 0, eA⟩, .grp ⟨.made 1, eA⟩, .grp b] :=
+  ⟨rfl, rfl, rfl⟩
+
+/-- **Negative result (`remove` touched `.all` first).** `remove(' ')` on
+`TexArgs(['{a}', ' ', '{b}'])` raised `ValueError` as a list does, but had already deleted
+the blank from `.all`; the current code raises with `.all` untouched. -/
+theorem remove_mutated_all_before_raising :
+    Args.Legacy2.remove stAB (.str [32]) = (⟨[gA, gB], [.grp gA, .grp gB], 2⟩, .valueError) ∧
+    Args.remove stAB (.str [32]) = (stAB, .valueError) :=
+  ⟨rfl, rfl⟩
+end Legacy2
 
 end C18
 end TexSoup
